@@ -261,7 +261,7 @@ def run_nested(outer_offers, inner_offers, upstream_kind, http2, eager):
     outer = _Peer(False, [o.decode("ascii") for o in outer_offers], certs)
     inner = _Peer(False, [o.decode("ascii") for o in inner_offers], certs)
     upstream = _Peer(True, UPSTREAM_KINDS[upstream_kind], certs)
-    servers, info = [], {"layers_at_start_client": [], "pins": []}
+    servers, info = [], {"layers_at_start_client": [], "pins": [], "appdata": []}
 
     def dispatch(event):
         queue = [event]; steps = 0
@@ -272,11 +272,13 @@ def run_nested(outer_offers, inner_offers, upstream_kind, http2, eager):
             for cmd in list(top.handle_event(ev)):
                 if isinstance(cmd, commands.StartHook):
                     if cmd.name == "tls_start_client":
-                        info["layers_at_start_client"].append([type(l).__name__ for l in ctx.layers])
+                        info["layers_at_start_client"].append([type(l).__name__ for l in cmd.args()[0].context.layers])   # the (forked) context of THIS handshake
                         info["pins"].append(opt_hex(client.alpn))
                     for a in (nl, ta):
                         fn = getattr(a, cmd.name, None)
                         if fn: fn(*cmd.args())
+                    if cmd.name == "tls_start_client":
+                        info["appdata"].append(opt_hex(cmd.args()[0].ssl_conn.get_app_data()["client_alpn"]))
                     queue.append(events.HookCompleted(cmd))
                 elif isinstance(cmd, commands.OpenConnection):
                     cmd.connection.state = connection.ConnectionState.OPEN
@@ -328,7 +330,7 @@ def run_nested(outer_offers, inner_offers, upstream_kind, http2, eager):
     dispatch(events.Start())
     pump()
     res = {"outer_done": outer.done, "outer_got": "none", "inner_done": False, "inner_got": "none", "upstream_done": False,
-           "upstream_got": "none", "connect_ok": False, "layers": info["layers_at_start_client"], "pins": info["pins"],
+           "upstream_got": "none", "connect_ok": False, "layers": info["layers_at_start_client"], "pins": info["pins"], "appdata": info["appdata"],
            "upstream_offers": []}
     if not outer.done: return res
     res["outer_got"] = opt_hex((outer.obj.selected_alpn_protocol() or "").encode())
@@ -342,11 +344,17 @@ def run_nested(outer_offers, inner_offers, upstream_kind, http2, eager):
     res["inner_done"], res["upstream_done"] = inner.done, upstream.done
     if inner.done: res["inner_got"] = opt_hex((inner.obj.selected_alpn_protocol() or "").encode())
     if upstream.done: res["upstream_got"] = opt_hex((upstream.obj.selected_alpn_protocol() or "").encode())
-    res["layers"], res["pins"] = info["layers_at_start_client"], info["pins"]
+    res["layers"], res["pins"], res["appdata"] = info["layers_at_start_client"], info["pins"], info["appdata"]
     if servers: res["upstream_offers"] = [hx(x) for x in (servers[-1].alpn_offers or [])]
     return res
 
 LAYER_KINDS = ["hp", "hup", "mode", "ctls", "stls", "http", "tcp"]
+CLASS_KIND = {"HttpProxy": "hp", "HttpUpstreamProxy": "hup", "ClientTLSLayer": "ctls", "ServerTLSLayer": "stls", "HttpLayer": "http"}
+
+
+def kinds_of(class_names):
+    """kind codes of the real layer classes recorded at a tls_start_client call (first = the mode layer)"""
+    return [CLASS_KIND.get(n, "mode" if i == 0 else "tcp") for i, n in enumerate(class_names)]
 
 
 def run_layers(kinds, client_alpn):
@@ -406,7 +414,9 @@ class Check(PropertyCheck):
                   "hooks and real TLS peers, where the model PREDICTS the upstream server's choice, the upstream offers, the outer and the "
                   "inner client protocol from the inputs alone. The DECISION which handshake is a secure web proxy's outer one (tls_start_client's test "
                   "on context.layers, NextLayer's explicit-proxy stack) is transcribed and proved (swp_outer_recognised, nested_handshake_not_outer, "
-                  "other_modes_not_outer; tied by calling tls_start_client on real layer lists); the chain theorems hold without any hypothesis on the "
+                  "other_modes_not_outer; isSwpOuter/startClientPin tied by calling tls_start_client on real layer lists, explicitProxyStack tied by "
+                  "comparing it with the layer classes recorded at the first tls_start_client of every real nested session, whose AppData pins are "
+                  "predicted too); the chain theorems hold without any hypothesis on the "
                   "offers (eager_chain_mirrors_total, eager_chain_http2_off_total); QUIC clients: quic_start_client's protocol list and aioquic's "
                   "negotiate are transcribed and tied, quic_selected_offered and quic_upstream_known_mirrored (full strength: that protocol or nothing). "
                   "Clauses: 'offered or none' = selected_in_offers_or_none, table_selected_in_offers_or_none, lifted_selected_in_offers, "
@@ -422,7 +432,8 @@ class Check(PropertyCheck):
                   "OpenSSL SSL_select_next_proto semantics, validated against CPython ssl servers in every run; a server selecting something "
                   "that was not offered would break TLS). QUIC: quic_start_client and aioquic.tls.negotiate are called for real and tied, no QUIC handshake is driven; on the QUIC path an upstream "
                   "that negotiated NOTHING (server.alpn == b\"\") is not mirrored — the client's own offer list is handed to aioquic and the client gets "
-                  "its first offer (quic_without_upstream_protocol; outside C18's observation points, no oracle clause, reported as an observation). Two properties hold only "
+                  "its first offer (quic_without_upstream_protocol; outside C18's observation points: the quic oracle judges 'offered or none' always and "
+                  "'that protocol or none' for a negotiated upstream protocol, and is LENIENT for server.alpn == b\"\" — reported as an observation). Two properties hold only "
                   "under the guard 'upstream protocol is among this client's offers / is not h2 when http2 is off'; outside it the real "
                   "callback falls back to the client's first HTTP protocol (recorded findings F-C18a, F-C18b; *_partial and "
                   "*_counterexample in Lean). Deviation from DESIGN §5: the table has offer lists of length <=3 (not <=4) and only the two "
@@ -641,7 +652,18 @@ class Check(PropertyCheck):
             offers = [unhx(x) for x in case["offers"]]
             return self.judge(c, s, case["http2"], offers, opt_unhex(obs["r"]), swp=(c == H11) or None)
         if op == "quic":
-            return []       # tie of the new transcription only (round 5 rule: no new oracle clauses); see level_note
+            offers = [unhx(x) for x in case["offers"]]
+            sel = opt_unhex(obs["selected"])
+            c, s_up = opt_unhex(case["c"]), opt_unhex(case["s"])
+            fails = []
+            # "The application protocol mitmproxy selects for a client is always one the client offered (or none)."
+            if sel is not None and sel not in offers:
+                fails.append(f"QUIC: selected {sel!r} is not among the client's offers {offers!r}")
+            # "If the upstream protocol is already known, the client gets that protocol or none" — judged for a negotiated (non-empty)
+            # upstream protocol and no addon pin.  LENIENT branch: an upstream that negotiated nothing (b"") is not judged here (see level_note).
+            if not c and s_up and sel is not None and sel != s_up:
+                fails.append(f"QUIC: upstream protocol is known ({s_up!r}) but the client gets {sel!r}")
+            return fails
         if op == "layers":
             return []       # AppData is internal: tied to the model; the sentences are judged on negotiated protocols (hs/stack/nested)
         if op == "nested":
@@ -773,6 +795,14 @@ class Check(PropertyCheck):
             obs = self._stash[1] if getattr(self, "_stash", (None,))[0] == key else self.impl(case)
             lines = []
             ofs = ",".join(case["offers"]) or "nil"
+            if obs["layers"]:
+                # the stack NextLayer really built below HttpProxy for a client that starts with a TLS record,
+                # predicted by the transcription of _setup_explicit_http_proxy
+                lines.append("xstack hp 1")
+                # AppData.client_alpn of every client handshake: outer on the PREDICTED stack, later ones on the recorded stack
+                for i, (cls, before) in enumerate(zip(obs["layers"], obs["pins"])):
+                    ks = ["hp", "ctls", "http"] if i == 0 else kinds_of(cls)
+                    lines.append(f"pin {','.join(ks)} {before}")
             if obs["outer_done"]:
                 lines.append(f"hs 1 none none {int(case['http2'])} " + (",".join(case["outer"]) or "nil"))
             if obs["inner_done"] and (obs["upstream_done"] or not case["eager"]):
@@ -811,6 +841,9 @@ class Check(PropertyCheck):
         if op == "nested":
             g = lambda v: "none" if v == "-" else v
             v = []
+            if obs["layers"]:
+                v.append(",".join(kinds_of(obs["layers"][0])))
+                v.extend(obs["appdata"][:len(obs["layers"])])
             if obs["outer_done"]: v.append(g(obs["outer_got"]))
             if obs["inner_done"] and (obs["upstream_done"] or not case["eager"]):
                 v.append(g(obs["inner_got"]))
